@@ -88,10 +88,13 @@ CHECKS.update({
                 technique="exact symbolic execution of the real propagation-and-compression schemes (stage-polynomial identity, all tensor values); runtime contracts with "
                           "theorem-derived bounds on every scheme (bounded stand-in for the floating-point / TDVP clauses)",
                 note=OTHER_NOTE),
-    "C10": dict(cat="exploration", ref="DESIGN §8 C10",
-                text="Imaginary-time branch of every scheme vs normalised expm(-tau H)psi, exact local propagator incl. shift / phase / frame bookkeeping, purified "
+    "C10": dict(cat="other", ref="DESIGN §8 C10, S.2",
+                text="Engine S (kernel-stub mode): for imaginary time steps the un-normalised result of every propagation-and-compression scheme equals the stage polynomial in "
+                     "(-tau H) applied to the state or density operator, exactly, for all tensor values of the enumerated shapes (the normalisation and the TDVP schemes are bounded). "
+                     "Imaginary-time branch of every scheme vs normalised expm(-tau H)psi, exact local propagator incl. shift / phase / frame bookkeeping, purified "
                      "identity states, thermal propagation vs dense Gibbs averages in the sector over two decades of beta. Bounded.",
-                technique="runtime contracts against dense matrix exponentials / Gibbs averages (bounded stand-in)",
+                technique="exact symbolic execution of the propagation-and-compression schemes for imaginary steps; runtime contracts against dense matrix exponentials / Gibbs "
+                          "averages (bounded stand-in)",
                 note=OTHER_NOTE),
     "C14": dict(cat="fault_enumeration", ref="DESIGN §8 C14, App. A.6",
                 text="Crash safety of TdMpsJob.dump_dict proved over a ghost file-system model from EVERY admissible directory state (pyvc: invariant obligation at each "
@@ -139,10 +142,13 @@ CHECKS.update({
                      "(every child order is its own case), groupings and dummy placements. Bounded.",
                 technique="runtime contracts against an independent tree contraction over enumerated tree shapes (bounded stand-in)",
                 note=OTHER_NOTE + " print_tree shim is part of the trusted base."),
-    "C12": dict(cat="exploration", ref="DESIGN §8 C12",
-                text="Theorem-derived bounds for the four tree evolution schemes in real and imaginary time vs scipy expm, sector conservation, input frame, multi-step histories, "
+    "C12": dict(cat="other", ref="DESIGN §8 C12, S.2",
+                text="Engine S (kernel-stub mode): evolve_prop_and_compress_tdrk4 on symbolic tree states of every rooted ordered tree shape (2..4(5) nodes) equals "
+                     "sum_{k<=4} (coeff tau H)^k / k! psi exactly, real and imaginary time; the velocity returned by time_derivative_vmf is checked (bounded) to be the orthogonal "
+                     "projection of H psi on the tangent space for truncated manifolds and any norm. Theorem-derived bounds for the four tree evolution schemes in real and imaginary time vs scipy expm, sector conservation, input frame, multi-step histories, "
                      "norm/energy conservation of one-site PS at bond limits 1-2, linear tree vs chain implementation, purified P x Q trees vs the dense Gibbs state. Bounded.",
-                technique="runtime contracts with theorem-derived bounds on the real tree evolution code (bounded stand-in)",
+                technique="exact symbolic execution of the tree propagation-and-compression scheme (Taylor-polynomial identity, all tensor values); runtime contracts with "
+                          "theorem-derived bounds on the real tree evolution code (bounded stand-in for the TDVP / floating-point clauses)",
                 note=OTHER_NOTE + " print_tree shim is part of the trusted base."),
     "C13": dict(cat="other", ref="DESIGN §8 C13, App. A.7, S.2",
                 text="Static modifies clauses for ~70 public state-producing / measuring methods of chains, trees, operators and density operators: an alias/effect "
@@ -188,7 +194,7 @@ def main():
             {"name": "pyvc", "path": "vk/pyvc", "serves_properties": ["C02", "C03", "C04", "C05", "C06", "C14", "C16", "C17", "C20"], "kind_free_text": "AST -> verification conditions (loop invariants, call by contract) -> z3/cvc5"},
             {"name": "exact-exec", "path": "vk/symx/exactexec.py", "serves_properties": ["C16", "C19"], "kind_free_text": "real source executed on exact rationals / z3 reals"},
             {"name": "effects", "path": "vk/pyvc/effects.py", "serves_properties": ["C13"], "kind_free_text": "alias / effect analysis of the real source against sidecar modifies clauses"},
-            {"name": "symx", "path": "vk/symx", "serves_properties": ["C01", "C02", "C03", "C04", "C07", "C09", "C11", "C15", "C18"], "kind_free_text": "real NumPy-level code executed on exact symbolic polynomial scalars; identities decided by normal form"},
+            {"name": "symx", "path": "vk/symx", "serves_properties": ["C01", "C02", "C03", "C04", "C07", "C09", "C10", "C11", "C12", "C15", "C18"], "kind_free_text": "real NumPy-level code executed on exact symbolic polynomial scalars; identities decided by normal form"},
             {"name": "rtc", "path": "vk/rtc", "serves_properties": ["C01", "C02", "C03", "C04", "C05", "C06", "C07", "C08", "C09", "C10", "C11", "C12", "C13", "C14", "C15", "C16", "C17", "C18", "C20"], "kind_free_text": "runtime contracts on the real functions, bounded-exhaustive inputs (bounded stand-in, never counted as proved)"},
         ],
         "checks": checks,
